@@ -53,6 +53,8 @@ struct Engine {
     dead: Option<String>,
     alloc_mean: u64,
     alloc_yields: u64,
+    /// a caller thread that just finished and waits to be joined by the coordinator
+    exiting: Option<usize>,
 }
 
 static ENGINE: Mutex<Option<Engine>> = Mutex::new(None);
@@ -199,6 +201,7 @@ pub fn start(sched: &Sched, nthreads: usize, alloc_mean: u64) {
         dead: None,
         alloc_mean,
         alloc_yields: 0,
+        exiting: None,
     });
     // the coordinator is not a simulated caller
     if let Some(e) = lock().as_mut() {
@@ -374,25 +377,18 @@ pub fn thread_finish() {
     let mut g = lock();
     let e = g.as_mut().expect("engine");
     e.states[me] = TState::Finished;
-    match e.decide(None) {
-        Some(next) => {
-            e.turn = next;
-            CV.notify_all();
-        }
-        None => {
-            if e.states.iter().any(|s| matches!(s, TState::Blocked(_))) {
-                let msg = e.describe_deadlock();
-                e.dead = Some(msg);
-            }
-            e.turn = 0;
-            CV.notify_all();
-        }
-    }
+    // The baton goes to the coordinator, which joins this OS thread (so that its
+    // thread-local destructors have run) before anybody else continues: a caller thread
+    // exiting while others are mid-compile is one atomic, scheduled step.
+    e.exiting = Some(me);
+    e.turn = 0;
+    CV.notify_all();
 }
 
 /// Coordinator: hand the baton to the first thread, then wait until every simulated thread
-/// finished or the execution died.
-pub fn coordinate() {
+/// finished or the execution died. `join` is called with the id of each thread that
+/// finished, while nobody else runs.
+pub fn coordinate(mut join: impl FnMut(usize)) {
     let mut g = lock();
     {
         let e = g.as_mut().expect("engine");
@@ -403,11 +399,42 @@ pub fn coordinate() {
     }
     CV.notify_all();
     loop {
-        {
-            let e = g.as_ref().unwrap();
+        let exiting = {
+            let e = g.as_mut().unwrap();
             if e.dead.is_some() {
                 return;
             }
+            if e.turn == 0 {
+                e.exiting.take()
+            } else {
+                None
+            }
+        };
+        if let Some(t) = exiting {
+            drop(g);
+            join(t);
+            g = lock();
+            let e = g.as_mut().unwrap();
+            match e.decide(None) {
+                Some(next) => {
+                    e.turn = next;
+                    CV.notify_all();
+                }
+                None => {
+                    if e.states.iter().any(|s| matches!(s, TState::Blocked(_))) {
+                        let msg = e.describe_deadlock();
+                        e.dead = Some(msg);
+                        return;
+                    }
+                    if e.states.iter().all(|s| *s == TState::Finished) {
+                        return;
+                    }
+                }
+            }
+            continue;
+        }
+        {
+            let e = g.as_ref().unwrap();
             if e.turn == 0 && e.states.iter().all(|s| *s == TState::Finished) {
                 return;
             }
